@@ -203,6 +203,14 @@ def run_case(case):
     if r[0] == "exc":
         return dict(nontrivial=True, outcome="exc", violations=[viol("mapping:" + r[1], "Mapping2D3D raised %s for entries %s" % (r[2], case["entries"]))])
     bpseq_text, dbn_text, ext_text, alldb, strands = r[1]
+    # the same questions once more on the same object, and in the opposite order on a second object: the answers are functions of the input alone
+    again = observe(lambda: (str(m.bpseq), m.dot_bracket, m.extended_dot_bracket, list(m.all_dot_brackets), list(m.strands_sequences)))
+    if again[0] == "exc" or again[1] != r[1]:
+        out.append(viol("mapping:second-asking-differs", "Mapping2D3D answers differently when asked again (entries %s)" % case["entries"], again[1] if again[0] == "ok" else again[2], None))
+    m2 = Mapping2D3D(s, bps, [], case["gaps"])
+    rev = observe(lambda: (list(m2.strands_sequences), list(m2.all_dot_brackets), m2.extended_dot_bracket, m2.dot_bracket, str(m2.bpseq)))
+    if rev[0] == "exc" or tuple(rev[1][::-1]) != tuple(r[1]):
+        out.append(viol("mapping:order-of-questions", "Mapping2D3D answers depend on the order in which they are asked (entries %s)" % case["entries"], rev[1] if rev[0] == "ok" else rev[2], None))
     # ---- expected numbering
     exp_seq = []
     index_of = {}
